@@ -13,6 +13,7 @@ import (
 	qrdec "github.com/makiuchi-d/gozxing/qrcode/decoder"
 
 	"verifharness/fw"
+	"verifharness/ref/onedref"
 )
 
 // C12: encoding is total.
@@ -28,7 +29,21 @@ var allFormats = []gozxing.BarcodeFormat{
 }
 
 func c12Content(rng *fw.Rand, ws *writerSpec) string {
-	switch rng.Intn(16) {
+	switch rng.Intn(17) {
+	case 16: // digit strings of the UPC/EAN lengths with ANY first digit, the last one often the mod-10
+		// check of the rest (for 8 digits also the check of the UPC-E expansion under that first digit)
+		n := []int{7, 8, 8, 11, 12, 13, 6, 14}[rng.Intn(8)]
+		d := digitsN(rng, n)
+		if rng.Bool() {
+			body := d[:n-1]
+			if n == 8 && rng.Bool() {
+				if exp := onedref.UPCEExpand(d[1:7], d[0]); exp != "" {
+					body = exp
+				}
+			}
+			d = d[:n-1] + fmt.Sprint(onedref.Mod10(body))
+		}
+		return d
 	case 15: // text of one letter case / digits with one or two characters from the edges of the
 		// code ranges (controls, DEL, 0x80, 0x9F, 0xA0, 0xFF) placed inside, as Latin-1 text
 		alpha := []string{"abcdefghijklmnopqrstuvwxyz ", "ABCDEFGHIJKLMNOPQRSTUVWXYZ ", "0123456789", "ABC*>\r 123"}[rng.Intn(4)]
